@@ -60,10 +60,21 @@ def gen(seed, tier="quick"):
     if scn["how"] == "execute" and scn["entry"] != "Policy.noretry":
         scn["hooks"]["timeline"] = r.choice([True, True, "obj", None])
     scn["exc_rot"] = r.randrange(len(EXC))
+    if r.random() < 0.2:
+        # slow hooks: time passes inside on_metric / on_log whether or not they then raise
+        for c in scn["calls"]:
+            c["hook_dur"] = [r.choice([0, 1000, 250_000, 1_000_000]) for _ in range(r.randint(1, 3))]
+    if r.random() < 0.12:
+        scn["warnings_as_errors"] = True     # the process runs with -W error
     return scn
 
 
 def _run(scn):
+    if scn.get("warnings_as_errors"):
+        import warnings
+        with warnings.catch_warnings():
+            warnings.simplefilter("error")
+            return run_retry_scenario(scn, chooser=chooser_for(scn) if scn["mode"] == "async" else None)
     return run_retry_scenario(scn, chooser=chooser_for(scn) if scn["mode"] == "async" else None)
 
 
